@@ -164,6 +164,11 @@ func (s *scriptReader) Read(p []byte) (int, error) {
 		s.noteFault()
 		return n, faultErr(st.Fault)
 	}
+	if st.Fault == "empty" {
+		// an empty chunk: (0, nil)
+		s.pos++
+		return 0, nil
+	}
 	if st.Fault != "" {
 		if st.DelayMs > 0 {
 			// the source stays silent for a while before it reports the end of file
@@ -642,9 +647,18 @@ func monC13(c *child.Ctx, replay json.RawMessage) {
 				add(faultCase{Steps: mk(pos, []string{ok}), TimeoutMs: tm, WaitMs: 1, StopAfter: pos, WantErrKind: ok, Note: fmt.Sprintf("other read error (%v) after byte %d", errOthers[ok], pos)}, inside[pos])
 			default:
 				// silence beyond the tolerance: faults keep coming until the handler gives up
+				// (in a third of the scripts with empty reads between them: nothing arrived
+				// either way)
 				fl := []string{}
+				withEmpty := r.Chance(1, 3)
 				for i := 0; i < 12; i++ {
 					fl = append(fl, faultKinds[r.Intn(3)])
+					if withEmpty {
+						fl = append(fl, "empty")
+					}
+				}
+				if withEmpty {
+					c.Count("stop_scripts_silence_with_empty_reads_between_the_faults", 1)
 				}
 				c.Count("stop_scripts_silence_beyond_tolerance", 1)
 				after := []string{"", "timeout", "mixed", "timeout-empty", "eof-empty"}[r.Intn(5)]
